@@ -190,6 +190,18 @@ func ExpectedTargets(root *m.BodyM, body *hclsyntax.Body) TargetModel {
 		if bc.Block != nil && len(s.TargetableAs) > 0 {
 			tm.Sources = append(tm.Sources, Source{"targetable", regionOf(bc.Block.Range()), "*"})
 			tm.Classes["targetable-as"] = true
+			// every targetable the effective schema declares (static and dependent body) yields its target
+			br, dr := bc.Block.Range(), bc.Block.DefRange()
+			for _, tt := range s.TargetableAs {
+				if tt.Addr == "" {
+					continue
+				}
+				tm.Expected = append(tm.Expected, ExpTarget{Kind: "targetable", Addr: m.ParseAddr(tt.Addr).String(), Scope: tt.Scope, Type: tt.Ty.Cty().GoString(),
+					Start: br.Start.Byte, End: br.End.Byte, DefStart: dr.Start.Byte, DefEnd: dr.End.Byte})
+			}
+			if bc.Sel.Index >= 0 && bc.BlockM != nil && bc.BlockM.Body != nil && len(bc.BlockM.Body.TargetableAs) > 0 && len(bc.BlockM.Deps[bc.Sel.Index].Body.TargetableAs) > 0 {
+				tm.Classes["targetable-as(static+dependent)"] = true
+			}
 		}
 		for _, name := range sortedAttrNames(bc.Body.Attributes) {
 			a := bc.Body.Attributes[name]
